@@ -74,7 +74,7 @@ func (g *streamGen) publish() inPacket {
 	// payload size classes relative to the buffer
 	var pl int
 	classes := []string{"empty", "small", "small", "small", "edge", "edge", "fillsExactly", "big", "huge"}
-	if rapid.IntRange(0, 1199).Draw(g.rt, "lengthWidth4Allowed") == 0 {
+	if g.buf > 8192 && rapid.IntRange(0, 399).Draw(g.rt, "lengthWidth4Allowed") == 0 {
 		classes = []string{"width4"} // rare: 2 MiB per message
 	}
 	width4 := false
